@@ -681,7 +681,8 @@ pub fn t7() -> BoxedStrategy<Value> {
             restamp(&mut t, b, k, how);
             // CAS with the old expected: must succeed; optionally parked before its nth hardware CAS
             match cas_kind {
-                0 | 1 => t.cas(a, C::Root(cell_sel % 2), Some("e"), if desired_null { None } else { Some("D") }, true, "prev", "cur"),
+                0 => t.cas(a, C::Root(cell_sel % 2), Some("e"), if desired_null { None } else { Some("D") }, true, "prev", "cur"),
+                1 => t.cas_weak(a, C::Root(cell_sel % 2), Some("e"), if desired_null { None } else { Some("D") }, true, "prev", "cur"),
                 _ => {
                     t.cas_tag(a, C::Root(cell_sel % 2), "e", tag.wrapping_add(1), "r");
                     t.clone_rc(a, "X", "prev");
@@ -758,6 +759,8 @@ pub fn t7w() -> BoxedStrategy<Value> {
             }
             if tag_cas {
                 t.wcas_tag(a, WC::Root(0), "e", tag.wrapping_add(k2), "r");
+            } else if k % 2 == 1 {
+                t.wcas_weak(a, WC::Root(0), Some("e"), if desired_null { None } else { Some("wd") }, true, "prev", "cur");
             } else {
                 t.wcas(a, WC::Root(0), Some("e"), if desired_null { None } else { Some("wd") }, true, "prev", "cur");
             }
